@@ -27,6 +27,9 @@ Definition string_options (v : value) : lres (list (string * string)) :=
   | _ => LErr "formatNumber: options must be a map"
   end.
 
+(* env.go maxPadWidth = maxRangeItems *)
+Definition max_pad_width : Z := 10000000.
+
 Section Dispatch.
   (* strings.ToUpper / strings.ToLower of a whole string, from the oracle table *)
   Variable upper_fn lower_fn : string -> option string.
@@ -58,7 +61,11 @@ Section Dispatch.
     else if is "pad" then
       match args with
       | [AStr s; AInt w; c] =>
-          match opt_str_arg c with Some ch => Some (ok_str (pad s w ch)) | None => None end
+          match opt_str_arg c with
+          | Some ch => Some (if (max_pad_width <? Z.abs w)%Z then LErr "pad: the second argument is out of range"
+                             else ok_str (pad s w ch))
+          | None => None
+          end
       | _ => None
       end
     else if is "trim" then
